@@ -16,6 +16,7 @@ mod ctx;
 mod gen;
 mod rng;
 mod same;
+mod spell;
 mod vx;
 
 mod c01;
